@@ -3,6 +3,7 @@ package main
 import (
 	"go/token"
 	"go/types"
+	"strconv"
 	"strings"
 
 	"golang.org/x/tools/go/ssa"
@@ -365,4 +366,122 @@ func spansTokens(lit string) bool {
 		}
 	}
 	return hasSep && hasOther
+}
+
+// ---------------------------------------------------------------------------
+// C05.j: a parameter value that is parsed as a number was cut out of the header at every separator of its level.
+// `SplitN(piece, ";", 2)[1]` (or the part after strings.Cut) is "everything behind the first ;": for
+// `application/json;q=0.2;ext=1` it is `q=0.2;ext=1`, the q-value does not parse and the range silently counts as
+// q=1. Walking back from the operand of strconv.ParseFloat/Atoi/ParseInt: a remainder of a cut at separator s is
+// only acceptable if a cut nearer to the parse already removed s.
+func ruleNumberFullyCut(c *Ctx) {
+	p := c.P
+	n := 0
+	for _, fn := range p.requestPathFuncs() {
+		if fn.Blocks == nil || !p.inModule(fn) {
+			continue
+		}
+		name := p.fname(fn)
+		eachInstr(fn, func(i ssa.Instruction) {
+			call, ok := i.(*ssa.Call)
+			if !ok {
+				return
+			}
+			switch calleeName(&call.Call) {
+			case "strconv.ParseFloat", "strconv.Atoi", "strconv.ParseInt", "strconv.ParseUint":
+			default:
+				return
+			}
+			freed := map[string]bool{}
+			bad := ""
+			cuts := 0
+			seen := map[ssa.Value]bool{}
+			var walk func(v ssa.Value, d int)
+			walk = func(v ssa.Value, d int) {
+				v = strip(v)
+				if d > 12 || v == nil || seen[v] || bad != "" {
+					return
+				}
+				seen[v] = true
+				switch x := v.(type) {
+				case *ssa.Call:
+					switch calleeName(&x.Call) {
+					case "strings.Trim", "strings.TrimSpace", "strings.TrimLeft", "strings.TrimRight", "strings.TrimPrefix", "strings.TrimSuffix", "strings.TrimFunc", "strings.ToLower":
+						walk(x.Call.Args[0], d+1)
+					}
+				case *ssa.Slice:
+					walk(x.X, d+1)
+				case *ssa.Phi:
+					for _, e := range x.Edges {
+						walk(e, d+1)
+					}
+				case *ssa.Extract:
+					if cc, ok := x.Tuple.(*ssa.Call); ok && calleeName(&cc.Call) == "strings.Cut" {
+						sep, isC := constStr(cc.Call.Args[1])
+						if !isC {
+							return
+						}
+						cuts++
+						if x.Index == 0 {
+							freed[sep] = true
+						} else if x.Index == 1 && !freed[sep] {
+							bad = "the part after strings.Cut at " + strconv.Quote(sep) + " (" + p.ipos(cc) + ")"
+							return
+						}
+						walk(cc.Call.Args[0], d+1)
+					}
+				case *ssa.UnOp:
+					if x.Op != token.MUL {
+						return
+					}
+					if ia, ok := x.X.(*ssa.IndexAddr); ok {
+						for _, src := range p.sources(ia.X, provDefault) {
+							sc, ok := src.(*ssa.Call)
+							if !ok {
+								continue
+							}
+							switch calleeName(&sc.Call) {
+							case "strings.Split":
+								if sep, isC := constStr(sc.Call.Args[1]); isC {
+									cuts++
+									freed[sep] = true
+								}
+								walk(sc.Call.Args[0], d+1)
+							case "strings.SplitN":
+								sep, isC := constStr(sc.Call.Args[1])
+								nn, isN := constInt(sc.Call.Args[2])
+								k, isK := constInt(ia.Index)
+								if isC && isN && isK && nn >= 2 {
+									cuts++
+									if k < nn-1 {
+										freed[sep] = true
+									} else if !freed[sep] {
+										bad = "the last element of strings.SplitN at " + strconv.Quote(sep) + " (" + p.ipos(sc) + ")"
+										return
+									}
+								}
+								walk(sc.Call.Args[0], d+1)
+							}
+						}
+						return
+					}
+					for _, a := range p.loadOfCell(x) {
+						for _, st := range p.cellStores(a) {
+							walk(st.Val, d+1)
+						}
+					}
+				}
+			}
+			walk(call.Call.Args[0], 0)
+			if cuts == 0 {
+				return // not a piece of a separated list
+			}
+			n++
+			c.check(bad == "", name, "a number is parsed from a piece cut at every separator of its level", p.ipos(call), "no remainder of a one-time cut reaches the parse uncut",
+				"the text parsed here is "+bad+", i.e. everything behind the first separator: with a further parameter behind it (`;q=0.2;ext=1`) the number does not parse and the default is used instead")
+		})
+	}
+	if n == 0 {
+		c.note("-", "no number is parsed from a piece of a separated list", "-", "nothing to decide")
+	}
 }
